@@ -590,3 +590,9 @@ mod tests {
         assert_eq!(*after.borrow(), 0);
     }
 }
+
+// Verification hook: harnesses live outside the repository (see MANIFEST.hooks of the verifier).
+#[cfg(kani)]
+pub(crate) mod verif_kani {
+    include!(concat!(env!("FINDUTILS_VERIF_DIR"), "/harness/m_logical_matchers.rs"));
+}
